@@ -262,3 +262,38 @@ pub fn vec_extend_overreport_panics<const REPORTED: usize>() {
     // not reached when the contract holds
     std::mem::forget(v);
 }
+
+/// the snapshot iterator (what the worker reads through) agrees with `get`: it yields every index of
+/// [start, count) exactly once, in order, across bucket boundaries, with an item exactly where
+/// `get` returns one
+pub fn vec_snapshot_iter_agrees<const PRE: usize, const ACTUAL: usize>() {
+    let v: Vec<u32> = Vec::with_capacity(0, 1);
+    if PRE > 0 {
+        v.extend(Liar { reported: PRE, actual: 0, items: [0u32; 3], next: 0 }, fill_from);
+    }
+    let items: [u32; 3] = kani::any();
+    v.extend(Liar { reported: 3, actual: ACTUAL, items, next: 0 }, fill_from);
+    let x: u32 = kani::any();
+    v.push(x, fill_from);
+    let start = PRE as u32;
+    let mut it = unsafe { v.snapshot(start) };
+    assert!(it.end() == v.count() && it.end() == PRE as u32 + 4);
+    let mut k = 0u32;
+    while k < 4 {
+        match it.next() {
+            Some((idx, item)) => {
+                assert!(idx == start + k, "the iterator yields consecutive indices");
+                let direct = v.get(idx);
+                assert!(item.is_some() == direct.is_some(), "an item exactly where get returns one");
+                if let (Some(a), Some(b)) = (item, direct) {
+                    assert!(*a.data == *b.data, "the same item as get");
+                }
+            }
+            None => assert!(false, "the iterator covers every index below count"),
+        }
+        k += 1;
+    }
+    assert!(it.next().is_none(), "and stops at count");
+    kani::cover!(true);
+    std::mem::forget(v);
+}
